@@ -49,7 +49,7 @@ def mc_blockdep(run):
 
 
 def api_streams(run, nlists, sd, accels):
-    res, finals = tlc.simulate_final_states("OpSeq", "OpSeq.cfg", nlists, 115, sd + 11)
+    res, finals = tlc.simulate_final_states("OpSeq", "OpSeq.cfg", nlists, 121, sd + 11)
     run.add_mc("OpSeq(simulate)", res)
     out = []
     for k, st in enumerate(finals):
